@@ -53,7 +53,14 @@ def find_function(tree, qualname):
              and child.name == rest[0] and child is not node]
     # a name may be defined several times (typing.overload stubs before the real definition): the
     # later definitions win at run time, and only the real one contains the nested function
-    for cand in reversed(cands):
+    def is_stub(n):
+      for d in getattr(n, 'decorator_list', []):
+        nm = d.attr if isinstance(d, ast.Attribute) else (d.id if isinstance(d, ast.Name) else None)
+        if nm in ('overload', 'setter', 'deleter'):
+          return True
+      return False
+    real = [c_ for c_ in cands if not is_stub(c_)] or cands
+    for cand in reversed(real):
       hit = search(cand, rest[1:])
       if hit is not None:
         return hit
